@@ -127,12 +127,26 @@ pub fn plan_lifecycle_lp(w: &World, knobs: &Knobs, actor: &mut Actor, l: &Ledger
                     1 => pick_any_range(rng, l, &p.whirlpool, &ppool),
                     _ => pick_range(rng, l, &p.whirlpool, &ppool),
                 };
+                // packaging fault: another pool's account in the whirlpool slot (with a range that is fine for that pool)
+                let other: Vec<&crate::gen::PoolInfo> = w.pools.iter().filter(|q| q.keys.whirlpool != p.whirlpool).collect();
+                let (named_pool, lo, hi) = if !other.is_empty() && rng.chance(1, 5) {
+                    let o = other[rng.idx(other.len())];
+                    match l.data(&o.keys.whirlpool).and_then(decode::pool) {
+                        Some(op) => {
+                            let (a, b) = pick_range(rng, l, &o.keys.whirlpool, &op);
+                            (o.keys.whirlpool, a, b)
+                        }
+                        None => (ppi.keys.whirlpool, lo, hi),
+                    }
+                } else {
+                    (ppi.keys.whirlpool, lo, hi)
+                };
                 flow.push((
                     tx1(ix::mk(
                         wa::ResetPositionRange {
                             funder: actor.wallet,
                             position_authority: actor.wallet,
-                            whirlpool: ppi.keys.whirlpool,
+                            whirlpool: named_pool,
                             position: pk.position,
                             position_token_account: pk.token_account,
                             system_program: ix::sys(),
